@@ -68,7 +68,7 @@ class Molecule(BigSMILESbase):
                         other_bd = self._elements[-1].bond_descriptors[-1]
                     if len(pre_stochastic.bond_descriptors) > 0:
                         found_compatible = False
-                        for bd in pre_stochastic.bond_descriptors[0]:
+                        for bd in pre_stochastic.bond_descriptors:
                             if bd.is_compatible(other_bd):
                                 found_compatible = True
                         if not found_compatible:
